@@ -58,7 +58,9 @@ use crate::waker::{CbKind, Hook, HookGuard, WakerCell, drop_own, new_waker};
 ///   the key is listed the re-entrant modes do not run the actions planned for drop callbacks of
 ///   stored wakers (drop callbacks of the clone a Ready poll releases still run them); mode
 ///   `known-reent-waker-drop-under-lock` reproduces the defect on the local events.
-const AVOID_KNOWN: &[&str] = &["reent-waker-drop-under-lock"];
+// Fixed in /repo (2d71068): drop callbacks of stored wakers run their nested operations in the ordinary
+// re-entrant modes; the directed mode stays as a regression job.
+const AVOID_KNOWN: &[&str] = &[];
 const KEY_DROP_UNDER_LOCK: &str = "reent-waker-drop-under-lock";
 
 // ------------------------------------------------------------------------------------------------
